@@ -306,8 +306,7 @@ def random_records(ctx, rng, count):
         fn = fns[k % len(fns)]
         if fn == 'smooth':
             n = rng.randint(1, 24)
-            ws = [w for w in range(0, n + 1) if (w + 1 if w % 2 == 0 else w) <= n]
-            w = rng.choice(ws) if rng.random() < 0.7 else max(ws) - rng.choice([0, 1]) * (len(ws) > 1)
+            w = rng.randint(0, n) if rng.random() < 0.7 else max(0, n - rng.choice([0, 0, 1]))     # any requested width <= n
             recs.append(record_call(fn, values(n, repeats=rng.random() < 0.2), [n], w, rng.random() < 0.5, []))
         elif fn == 'median':
             if rng.random() < 0.7:
@@ -503,8 +502,7 @@ def random_dyn_records(rng, count):
     for k in range(count):
         if k % 3 < 2:
             n = rng.randint(3, 20)
-            ws = [w for w in range(2, n + 1) if (w + 1 if w % 2 == 0 else w) <= n]
-            w = rng.choice(ws)
+            w = rng.randint(2, n) if rng.random() < 0.8 else n
             bq = [0] * n
             for pos in rng.sample(range(n), rng.choice([1, 1, 2])):
                 bq[pos] = rng.choice([-5, -1, 1, 2, 3, 5])
@@ -577,7 +575,7 @@ def run(ctx):
                 'huge-dynamic-range ones, result split into its 2^60 part and its small part) judged by Trace_IdlBuiltins')
     ctx.assumptions = [
         'floats are compared with the exact rational results up to 1e-12 relative (float64) / 2e-6 (float32)',
-        'smooth: made-odd widths not exceeding the array length; medians: odd widths not exceeding the smallest dimension',
+        'smooth: every requested width 0..n (made odd afterwards, effective width up to n+1); medians: odd widths not exceeding the smallest dimension',
         'integer dtypes (rebin): shape and dtype always, values only with sample=True; the rounding of integer block means and '
         'interpolations is left open by the statement (pydl documents it as not IDL compatible, upstream issue #60)',
         'dynamic range: elements whose reach contains a 2^60-sized sample are held to 1e-11 of that size, all others to '
